@@ -408,7 +408,12 @@ def into_data(val: Convertible, ty: t.Optional[IntoConverter] = None, *,
 
     try:
         conv = make_converter(ty, ConverterHandlers.make(custom))
-        assert not hasattr(conv.into_data, '_original')  # hack to not use the default into_data implementation here
+        if hasattr(conv.into_data, '_original'):
+            # this converter has no serialiser of its own (None, Literal): dispatch on the runtime type instead
+            if isinstance(val, _ScalarType) and not isinstance(val, enum.Enum):
+                return val
+            assert ty is not type(val)  # hack to not use the default into_data implementation here
+            return into_data(val, None, custom=custom)
     except (TypeError, AssertionError):
         raise TypeError(f"Can't convert type '{type(val)}' into data.") from None
 
